@@ -235,16 +235,16 @@ theorem valid_ne_nil {l : List α} (h : validEdges l = true) : l ≠ [] := by
 /-! ### polychromator fold -/
 
 /-- the accumulator of `Polychromator._update_spectral_settings` -/
-def polyAcc (inf : α) (fs : List (Filter α)) (mbpw : Nat) : α × α × α :=
+def polyAcc (inf : α) (fs : List (PFilter α)) (mbpw : Nat) : α × α × α :=
   fs.foldl (fun (acc : α × α × α) f =>
     (pmin acc.1 (f.window / (mbpw : α)), pmin acc.2.1 f.minW, pmax acc.2.2 f.maxW)) (inf, inf, 0)
 
-theorem polySettings_eq (ceil : α → Int) (inf : α) (fs : List (Filter α)) (mbpw : Nat) :
+theorem polySettings_eq (ceil : α → Int) (inf : α) (fs : List (PFilter α)) (mbpw : Nat) :
     polySettings ceil inf fs mbpw =
       ⟨(polyAcc inf fs mbpw).2.1, (polyAcc inf fs mbpw).2.2, (polyAcc inf fs mbpw).1,
         ceil (((polyAcc inf fs mbpw).2.2 - (polyAcc inf fs mbpw).2.1) / (polyAcc inf fs mbpw).1)⟩ := rfl
 
-theorem poly_fold_bounds (mbpw : Nat) (fs : List (Filter α)) (acc : α × α × α) :
+theorem poly_fold_bounds (mbpw : Nat) (fs : List (PFilter α)) (acc : α × α × α) :
     let r := fs.foldl (fun (acc : α × α × α) f =>
       (pmin acc.1 (f.window / (mbpw : α)), pmin acc.2.1 f.minW, pmax acc.2.2 f.maxW)) acc
     (r.1 ≤ acc.1 ∧ r.2.1 ≤ acc.2.1 ∧ acc.2.2 ≤ r.2.2) ∧
@@ -392,5 +392,56 @@ theorem defined_of_initStatic (t : ClassTable) (h : initStaticB t = true) (hk : 
   have := h a ha
   simpa using this
 
+
+/-! ### unfolding `spectralSettings` -/
+
+theorem spectralSettings_unfold {ceil : α → Int} {w2p : List (List α)} {mbpp : Nat} {s : Settings α}
+    (h : spectralSettings ceil w2p mbpp = some s) :
+    ∃ firsts lasts widths w,
+      optAll (w2p.map List.head?) = some firsts ∧ optAll (w2p.map List.getLast?) = some lasts ∧
+      optAll (w2p.map fun a => minL (diffs a)) = some widths ∧
+      minL firsts = some s.minW ∧ maxL lasts = some s.maxW ∧ minL widths = some w ∧
+      s.step = w / (mbpp : α) ∧ s.bins = ceil ((s.maxW - s.minW) / s.step) := by
+  unfold spectralSettings at h
+  split at h
+  · rename_i firsts lasts widths h1 h2 h3
+    split at h
+    · rename_i mn mx w h4 h5 h6
+      simp only [Option.some.injEq] at h
+      subst h
+      exact ⟨firsts, lasts, widths, w, h1, h2, h3, h4, h5, h6, rfl, rfl⟩
+    · cases h
+  · cases h
+
+
+/-! ### invalidation protocol helpers -/
+
+section protocol
+variable {P C : Type} [DecidableEq P] [DecidableEq C]
+
+/-- observing a freshly built instance with parameter versions `ver` -/
+theorem fresh_obs (pr : Inval.Proto P C) (ver : P → Nat) (c : C) :
+    (Inval.step pr (freshAt ver) (.obs c)).2 = some ((pr.deps c).map ver) := by
+  simp [Inval.step, Inval.fill, Inval.view, freshAt]
+
+theorem ver_fill (s : Inval.St P C) (c : C) : (Inval.fill s c).ver = s.ver := by
+  unfold Inval.fill; split <;> rfl
+
+theorem ver_run_filter (pr : Inval.Proto P C) (ops : List (Inval.Op P C)) (s s' : Inval.St P C) (h : s.ver = s'.ver) :
+    (Inval.run pr s ops).ver = (Inval.run pr s' (ops.filter isSet)).ver := by
+  induction ops generalizing s s' with
+  | nil => simpa [Inval.run] using h
+  | cons o os ih =>
+    cases o with
+    | set p =>
+      simp only [List.filter, isSet, Inval.run, List.foldl, Inval.step]
+      apply ih
+      simp [Inval.setP, h]
+    | obs c =>
+      simp only [List.filter, isSet, Inval.run, List.foldl, Inval.step]
+      apply ih
+      rw [ver_fill]; exact h
+
+end protocol
 
 end Cherab.Lemmas.Instruments
